@@ -624,8 +624,14 @@ def run_property(mod, tier, seed, replay=None):
             for i, why in r["mismatches"]:
                 broken.append(("correspondence %s/%s impl-vs-model" % (pid, s.name),
                                {"case": s.show(cases[i]), "detail": why}))
+            mism_ids = set(i for i, _ in r["mismatches"])
             for i, why in sorted(r["failures"].items()):
                 cls = s.finding_class(cases[i], why, r["impl"].get(i))
+                # a known finding is the behaviour of the pristine model G: if the implementation
+                # departs from G on this very case, the failure is not (only) the listed finding
+                if cls is not None and cls in known and i in mism_ids:
+                    why = why + " [inside known class %s, but the implementation differs from the model here]" % cls
+                    cls = None
                 if cls is not None and cls in known:
                     known_hits.setdefault(cls, (s, cases[i], why))
                 else:
